@@ -84,6 +84,28 @@ func genBytes(g *simrt.Tape) []byte {
 func genFrame(g *simrt.Tape, small bool) []byte {
 	budget := 2 + g.Draw(12)
 	n := 1 + g.Draw(4)
+	switch g.Draw(12) {
+	case 0:
+		// a message whose value is empty: header only
+		n = 0
+	case 1:
+		// a top-level item that is not a structure (the stream frames any TTLV item), empty ones included
+		var v any
+		switch g.Draw(5) {
+		case 0:
+			v = ""
+		case 1:
+			v = []byte{}
+		case 2:
+			v = genText(g)
+		case 3:
+			v = int32(g.Draw(1000))
+		default:
+			b := genBytes(g)
+			v = b[:min(len(b), g.Draw(17))]
+		}
+		return ttlv.MarshalTTLV(ttlv.Value{Tag: 0x420078 + g.Draw(4), Value: v})
+	}
 	st := ttlv.Struct{}
 	for i := 0; i < n; i++ {
 		v := genValue(g, 1, &budget)
